@@ -62,6 +62,9 @@ func mailbox.(*DirHandler).AddOut(h, msg) (err)
 
 func mailbox.(*DirHandler).ProcessInbound(h, msgs) (err)
   props C11 C12 C10 C02
+  # SetUnread writes to the path named by the message's X-FilePath header, which cannot be
+  # shown to lie inside this mailbox: not allowed on the paths C12 speaks about
+  forbid [C12] mailbox.SetUnread
   requires msgs: forall k :: 0 <= k && k < len(msgs) ==> msgs[k] != nil
   forbid os.
   forbid ioutil.
@@ -77,7 +80,11 @@ ghost var gStored bool
 ghost var gStoreErr error
 
 func mailbox.(*DirHandler).GetInboundAnswer(h, p) (a)
-  props C12 C10
+  # (C02: duplicate suppression by MID on the receiving mailbox)
+  props C12 C10 C02
+  # SetUnread writes to the path named by the message's X-FilePath header, which cannot be
+  # shown to lie inside this mailbox: not allowed on the paths C12 speaks about
+  forbid [C12] mailbox.SetUnread
   forbid os. except os.Open, os.(*File).Close, os.IsNotExist
   forbid ioutil.
   call os.Open requires within: confined(h.MBoxPath, $0)
@@ -92,20 +99,24 @@ ghost var gOpened bool
 
 func mailbox.(*DirHandler).SetSent(h, MID, rejected) ()
   props C12 C11 C10
+  # SetUnread writes to the path named by the message's X-FilePath header, which cannot be
+  # shown to lie inside this mailbox: not allowed on the paths C12 speaks about
+  forbid [C12] mailbox.SetUnread
   forbid os. except os.Rename
   forbid ioutil.
   call os.Rename requires within: confined(h.MBoxPath, $0) && confined(h.MBoxPath, $1)
 
 
 func mailbox.(*DirHandler).SetDeferred(h, MID) ()
-  props C12 C10
+  props C12 C10 C02
   requires prepared: h.deferred != nil
   forbid os.
   forbid ioutil.
   ensures deferred: haskey(h.deferred, MID)
 
 func mailbox.(*DirHandler).Prepare(h) (err)
-  props C10
+  # (C02: a deferral lasts one session, so a repeated exchange offers the message again)
+  props C10 C02
   ensures fresh-deferrals: h.deferred != nil && (forall k :: !haskeyid(h.deferred, k))
 
 func mailbox.LoadMessageDir(dirPath) (msgs, err)
@@ -129,7 +140,7 @@ ghost var gStrip2 *fbb.Message
 ghost var gStrip3 *fbb.Message
 
 func mailbox.(*DirHandler).GetOutbound(h, fws) (out)
-  props C10
+  props C10 C02
   requires prepared: h.deferred != nil
   call fbb.(Header).Del#0 requires p2p: $1 == "X-P2POnly"
   call fbb.(Header).Del#0 set gStrip1 := m
